@@ -246,6 +246,14 @@ func init() {
 				stat("C16", "unmarshal-error")
 			}
 			fmt.Fprintf(out, "CASE\tC16\t%s\t%s\t1\n", sx.String(c), sx.String(obs))
+			// the matching rule, checked directly on the destination (top level, string fields, inline map):
+			// tag key if present, else the first present alias; every other key ends in the inline map
+			if uerr == nil && d.kind == 'm' {
+				if msg := c16rule(ty.t, d, reflect.ValueOf(dst).Elem()); msg != "" {
+					oracleFail("C16", "matching-rule", short, msg)
+					continue
+				}
+			}
 			// alias-free target, well-typed document: the YAML library's own decoder must agree
 			if !ty.aliased && !g.coerce {
 				if uerr != nil {
@@ -273,4 +281,60 @@ func init() {
 			}
 		}
 	}
+}
+
+func c16rule(t reflect.Type, d *dv, v reflect.Value) string {
+	consumed := map[string]bool{}
+	var inline *reflect.Value
+	for i := 0; i < t.NumField(); i++ {
+		f := t.Field(i)
+		k, isInline, keyed := yamlKey(f)
+		if isInline {
+			fv := v.Field(i)
+			inline = &fv
+			continue
+		}
+		if !keyed {
+			continue
+		}
+		names := []string{k}
+		if a := f.Tag.Get("aliases"); a != "" {
+			names = append(names, strings.Split(a, ",")...)
+		}
+		chosen := ""
+		for _, n := range names {
+			if d.has(n) {
+				chosen = n
+				break
+			}
+		}
+		if chosen == "" {
+			continue
+		}
+		consumed[chosen] = true
+		if f.Type.Kind() == reflect.String {
+			want := ""
+			if src := d.get(chosen); src.kind != 'n' {
+				want, _ = sprintDv(src)
+			}
+			if got := v.Field(i).String(); got != want {
+				return fmt.Sprintf("field %s should take the value of key %q (%q) but holds %q", f.Name, chosen, want, got)
+			}
+		}
+	}
+	if inline != nil && inline.Kind() == reflect.Map {
+		for _, e := range d.m {
+			has := inline.MapIndex(reflect.ValueOf(e.k)).IsValid()
+			if consumed[e.k] && has {
+				return fmt.Sprintf("key %q was consumed by a field and also copied into the inline map", e.k)
+			}
+			if !consumed[e.k] && !has {
+				return fmt.Sprintf("key %q was consumed by no field but is missing from the inline map", e.k)
+			}
+		}
+		if inline.Len() != len(d.m)-len(consumed) {
+			return fmt.Sprintf("inline map has %d entries, want %d", inline.Len(), len(d.m)-len(consumed))
+		}
+	}
+	return ""
 }
